@@ -196,6 +196,14 @@ def c_oriented(rng):
     if rng.random() < 0.3:
         # very small / large coordinates (a power-of-two factor, exact): orientation is a matter of sign, not size
         els = gen.scaled(els, rng.choice(gen.SCALES))
+    if kind == 'multipolygon' and rng.random() < 0.3:
+        # as many rings as parts over the whole buffer: every hole balanced by a part without rings
+        holes = sum(len(p) - 1 for el in els if el for p in el if p)
+        live = [el for el in els if el is not None]
+        for _ in range(holes):
+            if live:
+                el = rng.choice(live)
+                el.insert(rng.randint(0, len(el)), [])
     cs = gen.Case(kind, els, steps)
     before = pickle.dumps(cs.arr.data.to_pylist())
     out = []
